@@ -140,6 +140,11 @@ def call_ext(it, chain: str, args: List[Any], kwargs: Dict[str, Any], env, node)
         return op("numba_" + tail.replace(".", "_"), *[to_term(a) for a in args])
     if chain in IDENTITY_FUNCS and args:
         return args[0]
+    if chain.startswith("datetime."):
+        # datetime constructors / class methods: kept as named operators with their keywords (typestate rules read them)
+        name = "dt_" + chain[len("datetime."):].replace(".", "_")
+        return op(name, *[to_term(a) for a in args],
+                  *[sp.Tuple(Str(k), to_term(v)) for k, v in sorted(kwargs.items())])
     if chain.startswith("numba_progress"):
         return op("progressbar")
     if chain.startswith("typing.") or chain.startswith("numbers."):
